@@ -422,6 +422,7 @@ def tab_cli(run):
     tab_cli_defaults(run, pc, table)
     tab_cli_derive(run)
     tab_cli_derive_name(run)
+    tab_cli_derive_when(run, pc)
     # 5. print xor write per group
     tab_cli_groups(run)
 
@@ -518,12 +519,27 @@ def tab_cli_get_arg(run, pof):
     has_remove = any(c.endswith("::remove") for c in calls)
     # the validator is called (indirect dyn call) and the Ok(v) return depends on it
     vcall = [(bi, t) for bi, t in g.calls() if t.get("resolved_kind") == "virtual" or t.get("callee") is None or "FnMut" in (t.get("callee") or "")]
+    filt = None
+    if not vcall:
+        # `parse().ok().filter(|v| validate(*v))`: the validator runs inside the filter's closure, `Some` = it said yes
+        from mir import closure_of_origin
+        from rules_sym import option_tests, deep as _deep2
+        for h in prog.real_fns():
+            if h.kind == "Closure" and h.id.startswith(g.id + "::{closure"):
+                inner = [(bi, t) for bi, t in h.calls() if t.get("resolved_kind") == "virtual" or t.get("callee") is None or "FnMut" in (t.get("callee") or "")]
+                if len(inner) == 1 and inner[0][1]["dest"]["l"] == 0 and not inner[0][1]["dest"]["p"]:
+                    for bi, t in g.calls():
+                        if (t.get("callee") or "").endswith("Option::<T>::filter") and closure_of_origin(g.origin_op(t["args"][1])) == h.id:
+                            tests = option_tests(g, lambda d: d.startswith("Option::filter("))
+                            if tests:
+                                filt = tests[0]
+                                vcall = inner
     run.check(has_parse, R, R + "|get_arg|parse", g.loc(), "parameter values are parsed as numbers", "parameter getter does not parse the value with str::parse")
     run.check(bool(vcall), R, R + "|get_arg|validate", g.loc(), "parameter getter calls the validator", "parameter getter never calls the validator: out-of-set values would be accepted")
     run.check(has_remove, R, R + "|get_arg|remove", g.loc(), "an accepted parameter is removed from the leftover map", "accepted parameters are not removed from the map: the leftover check would reject valid parameters (or is not driven by consumption)")
     if vcall:
         vb, vt = vcall[0]
-        sw = T.bool_test(g, vt)
+        sw = T.bool_test(g, vt) if filt is None else (filt[1], filt[2], filt[0])
         ok = False
         if sw:
             true_region = T.dominated_region(g, sw[0], sw[2])
@@ -648,7 +664,7 @@ def _op_refers(f, op, local):
     return False
 
 
-def param_roles(prog, g):
+def param_roles(prog, g, _depth=0):
     """what each parameter of a formatter is used as, recognised from its uses (not from its name):
     base = the radix whose digit width is `(p - 1).count_ones()`; digits_per_group = a modulus of digit positions;
     address_unit = what bit positions are divided by; self / fileserver by type"""
@@ -677,6 +693,22 @@ def param_roles(prog, g):
                         role.add("digits_per_group")
                     if st["rv"]["op"] == "Div" and deep(h, st["rv"]["r"], 3) == tok:
                         role.add("div")
+        # a parameter handed unchanged to a private helper of the formatter module takes the role it has there
+        if not role and _depth < 3:
+            for h in fam:
+                tok = me if h is g else ("upvar:%s" % nm)
+                for bi, t in h.calls():
+                    callee = prog.fn(t.get("resolved") or t.get("callee") or "")
+                    if callee is None or not callee.id.startswith("util::bitvec_format") or callee.id == g.id:
+                        continue
+                    for ai, a in enumerate(t["args"]):
+                        if deep(h, a, 3) == tok and ai < callee.arg_count:
+                            sub = param_roles(prog, callee, _depth + 1)
+                            r_ = sub[ai]
+                            if r_ == "address_unit":
+                                role.add("div")
+                            elif r_ not in ("?", "self", "fileserver"):
+                                role.add(r_)
         if "base" in role:
             roles.append("base")
         elif "digits_per_group" in role:
@@ -781,9 +813,13 @@ def tab_cli_defaults(run, pc, table):
         h = run.prog.fn(t.get("resolved") or "") if t.get("resolved_local") else None
         if h is None:
             continue
+        handed = False
         for i, a in enumerate(t["args"]):
             if op_place(a) is not None and _deep(pc, a, 4).endswith(".printout") and i + 1 <= h.arg_count:
                 cands.append((h, i + 1))
+                handed = True
+        if not handed and h.id.startswith("driver::"):
+            cands.append((h, None))         # a step of parse_command factored out; it reads the group's `printout` itself
     done = False
     for f, pidx in cands:
       aggs = T.region_aggregates(f, f.reachable(), "OutputFormat")
@@ -864,6 +900,41 @@ def tab_cli_derive(run):
     run.check(guard, R, R + "|derive-not-input", f.loc(),
               "a derived name equal to the input name is reported and rejected; Ok only on the `differs` edge",
               "derive_output_filename can return a name without passing the `!= input_filename` edge")
+
+
+def tab_cli_derive_when(run, pc, R="TAB-cli"):
+    """an output name is derived (and checked against the input name) only for a group that is written to a file and has no name:
+    the call of derive_output_filename lies on the `!printout` edge and on the `output_filename is None` edge"""
+    from rules_sym import option_tests, deep as _deep
+    cands = [pc] + [h for h in (run.prog.fn(t.get("resolved") or "") for _, t in pc.calls() if t.get("resolved_local")) if h is not None and h.id.startswith("driver::")]
+    site = None
+    for f in cands:
+        for bi, t in f.calls():
+            if (t.get("resolved") or "") == "driver::derive_output_filename":
+                site = (f, bi, t)
+    if site is None:
+        run.violation(R, R + "|derive|when", pc.loc(), "mechanism not found: the call of derive_output_filename")
+        return
+    f, cb, ct = site
+    not_printing = False
+    for b in f.dominators().get(cb, ()):
+        t = f.blocks[b]["term"]
+        if t["k"] != "switch" or b == cb or op_local(t["discr"]) is None or f.local_ty(op_local(t["discr"])) != "bool":
+            continue
+        o = f.origin_op(t["discr"])
+        neg = False
+        if o[0] == "unop" and o[1]["op"] == "Not":
+            neg = True
+            o = f.origin_op(o[1]["x"])
+        if o[0] == "place" and o[2] and isinstance(o[2][-1], dict) and o[2][-1].get("name") == "printout":
+            ft = [tg for v, tg in t["targets"] if v == "0"]
+            edge = (t["otherwise"] if neg else (ft[0] if ft else None))
+            if edge is not None and f.edge_dominates(b, edge, cb):
+                not_printing = True
+    unnamed = any(f.edge_dominates(sb, none_, cb) for sb, some_, none_ in option_tests(f, lambda d: d.endswith(".output_filename")))
+    run.check(not_printing and unnamed, R, R + "|derive|when", f.loc(ct["span"]), "a name is derived only for a group that is not printed and has no output file name",
+              "parse_command derives an output file name %s: a group that only prints would fail with `cannot derive safe output filename` (or get a file it did not ask for)" % (
+                  "also for groups that print" if not not_printing else "also for groups that already name their file"))
 
 
 def tab_cli_derive_name(run, R="TAB-cli"):
@@ -947,6 +1018,34 @@ def tab_cli_groups(run):
               "the file is written only on the `!printout` edge", "write_bytes is not confined to the `!printout` edge")
     run.check(bool(prints_true) and printed_formatted, R, R + "|group|print-when-printing", f.loc(),
               "the formatted bytes are printed on the `printout` edge", "the `printout` edge does not print the formatted bytes")
+    # a group that names a file always reaches the write: on the `output_filename is Some` edge nothing leads back to the loop (or
+    # out of it) except through write_bytes
+    from rules_sym import option_tests
+    tests = option_tests(f, lambda d: d.endswith(".output_filename"))
+    okw = bool(tests)
+    whyw = "no test of the group's output_filename"
+    for sb_, some_, none_ in tests:
+        if not f.edge_dominates(sb_, some_, wb):
+            continue
+        seen, work = set(), [some_]
+        escaped = None
+        while work:
+            x = work.pop()
+            if x in seen or x == wb or f.blocks[x]["cleanup"]:
+                continue
+            seen.add(x)
+            if not f.edge_dominates(sb_, some_, x):
+                escaped = x
+                continue
+            tt = f.blocks[x]["term"]
+            if tt["k"] == "return":
+                escaped = x
+            work.extend(f.succs(x))
+        if escaped is not None:
+            okw = False
+            whyw = "from the `has an output file name` edge the loop can go on (block %s) without calling write_bytes" % escaped
+    run.check(okw, R, R + "|group|file-always-written", f.loc(wt["span"]), "a group with an output file name always reaches write_bytes (an empty output is still a file)",
+              "assemble_with_command: %s: a requested output file would not be produced (a stale file of an earlier run would stay)" % whyw)
     # the filename written is the group's output_filename
     o = f.origin_op(wt["args"][3]) if len(wt["args"]) > 3 else None
     desc = describe_origin(f, o) if o else "?"
@@ -1248,13 +1347,29 @@ def fmt_profile(run):
         for bi, t in f.calls():
             m = re.search(r"Argument::<'_>::new_(\w+)$", t.get("callee") or "")
             if m:
-                ty = (t.get("gargs") or ["?"])[-1]
+                ty = (t.get("gargs") or ["?"])[-1].lstrip("&")      # `{:02X}` of a `&u8` prints the u8
                 if re.search(r"^&?(u8|u16|u32|u64|usize|i32|i64|isize|util::bigint::BigInt)$", ty):
                     prof[root.rsplit("::", 1)[-1]]["%s<%s>" % (m.group(1), ty)] += 1
+    # numbers printed by a private helper of the module count for the formatters that call it
+    calls_local = defaultdict(set)
+    for f in prog.real_fns():
+        root = f.raw.get("root") or f.id
+        if "bitvec_format" not in root:
+            continue
+        for bi, t in f.calls():
+            c = t.get("resolved") or t.get("callee") or ""
+            if re.search(r"^util::bitvec_format\w*::(<impl util::bitvec::BitVec>::)?(?!format_)\w+$", c) and prog.fn(c) is not None:
+                calls_local[root.rsplit("::", 1)[-1]].add(c.rsplit("::", 1)[-1])
+    def folded(name, seen=()):
+        tot = Counter(prof.get(name, {}))
+        for h in calls_local.get(name, ()):
+            if h not in seen and h != name:
+                tot += folded(h, seen + (name,))
+        return tot
     for name, want in sorted(spec["numeric_profile"].items()):
         if name.startswith("_"):
             continue
-        got = dict(prof.get(name, {}))
+        got = dict(folded(name))
         g = prog.find("BitVec>::" + name)
         run.check(got == want, R, "%s|numeric-profile|%s" % (R, name), g[0].loc() if g else "-",
                   "%s prints its numbers as %s" % (name, got),
@@ -1300,10 +1415,11 @@ def bit_source(run, R="TAB-fmt"):
     allowed = re.compile(r"util::bitvec::BitVec::(len|read_bit|get_blocks)$")
     n = 0
     for f in prog.real_fns():
-        if f.kind != "AssocFn" or not re.search(r"(bitvec_format|bitvec_format_annotated|bitvec_format_tcgame|bitvec_format_addrspan)::<impl util::bitvec::BitVec>::format_\w+$", f.id):
+        if f.kind not in ("AssocFn", "Fn") or not re.search(r"^util::bitvec_format\w*::(<impl util::bitvec::BitVec>::)?\w+$", f.id):
             continue
         name = f.id.rsplit("::", 1)[-1]
-        n += 1
+        if name.startswith("format_"):
+            n += 1
         bad = []
         for bi, t in f.calls():
             tys = t.get("arg_tys", [])
@@ -1314,6 +1430,9 @@ def bit_source(run, R="TAB-fmt"):
                 continue
             w = spec["wrappers"].get(name)
             if w and c.endswith("::" + w[0]):
+                continue
+            # a private helper of the formatter module (not itself a formatter) is held to the same rule where it is defined
+            if re.search(r"^util::bitvec_format\w*::(<impl util::bitvec::BitVec>::)?(?!format_)\w+$", c) and prog.fn(c) is not None:
                 continue
             bad.append(c.rsplit("::", 1)[-1])
         run.check(not bad, R, "%s|bit-source|%s" % (R, name), f.loc(),
